@@ -85,6 +85,25 @@ fn case(input: &Input, ctx: &mut Ctx) -> CaseResult {
             other => viol!("Pid::try_from(0) returned {:?} instead of Err(ZeroPid)", other),
         }
         ensure!(Pid::default().value() != 0, "Pid::default() is 0");
+        // ... however often it is called (more often than there are identifiers), from this thread and from another one,
+        // and what it returns takes part in the arithmetic like any other identifier
+        let many = |who: &str| -> Result<(), String> {
+            for i in 0..200_000u32 {
+                let d = Pid::default();
+                if d.value() == 0 || Pid::try_from(d.value()) != Ok(d) || (d + 0).value() == 0 || (d + 1).value() != model_add(d.value(), 1) || (d - 1).value() != model_sub(d.value(), 1) {
+                    return Err(format!("call #{} of Pid::default() ({}) returned identifier {} (+1 -> {}, -1 -> {})", i + 1, who, d.value(), (d + 1).value(), (d - 1).value()));
+                }
+            }
+            Ok(())
+        };
+        if let Err(m) = many("on this thread") {
+            viol!("{}", m);
+        }
+        match std::thread::spawn(move || many("on a second thread")).join() {
+            Ok(Ok(())) => {}
+            Ok(Err(m)) => viol!("{}", m),
+            Err(_) => viol!("Pid::default() panicked on a second thread"),
+        }
         ctx.label("zero-rejected");
         return Ok(());
     }
